@@ -41,7 +41,7 @@ CLAIMED['C13'] = {
             'names = reader names, no persisted field of a parsed element is overwritten with a value not derived from the '
             'input before it is stored, the coordinate writer replaces a value by a sentinel only on a non-finite edge, and must-pass-through: every Ok exit of the Tds deserialiser lies behind the '
             'success edges of the neighbour / incident-cell rebuild and of a call covering all Level-2 and Level-1 '
-            'validators. Decides the "nothing silently dropped" and "inconsistent input is rejected" clauses, not '
+            'validators; a fixed-arity sequence reader refuses input that ends early; the Vertex reader refuses every non-finite coordinate. Decides the "nothing silently dropped" and "inconsistent input is rejected" clauses, not '
             'round-trip equality.',
     'note': 'Trusted: rustc MIR; serde derive/expansion emits serialize_field calls with literal names; slotmap '
             'serde for key gaps. Skip table with reasons in engine/rules/c13.py.',
@@ -54,7 +54,7 @@ CLAIMED['C16'] = {
             'idempotence); every exported insertion-by-location on DelaunayTriangulation passes coordinate '
             'canonicalisation before the vertex can reach storage; the toroidal builder arms canonicalise, construct '
             'from the canonicalised vertices and record the topology before Ok; no exported operation other than '
-            'set_global_topology changes the recorded topology on any path (whole-receiver replacements must copy it); a vertex re-created at perturbed coordinates is wrapped again; every builder arm passes the configured options and guarantee to its constructor. Decides the wrapping-mode clauses '
+            'set_global_topology changes the recorded topology on any path (whole-receiver replacements must copy it); a vertex re-created at perturbed coordinates is wrapped again; every builder arm passes the configured options and guarantee to its constructor, and the arm that builds from canonicalised vertices must hand over the topology as well (violated today: known finding F21). Decides the wrapping-mode clauses '
             'structurally; the periodic image-point mode is not decided.',
     'note': 'Trusted: rustc MIR; the canonicalisation leaf is GlobalTopologyModel::canonicalize_point_in_place (any '
             'impl); congruence modulo the period is arithmetic and not decided.',
@@ -71,7 +71,7 @@ CLAIMED['C19'] = {
             '(constructors and k=1 flips are reasoned table entries); helpers that assert hull freshness are called only '
             'behind the typed staleness check; checked integer arithmetic (overflow / division asserts on non-usize integers, '
             'usize subtraction) per function matches a classified table; slice indices that are caller-handle values are '
-            'range-checked first; range samplers are reached only behind a finiteness test of the range width. Decides "no unbounded loop / recursion, no new '
+            'range-checked first; range indexing is guarded by a length test on the same collection; range samplers are reached only behind a finiteness test of the range width. Decides "no unbounded loop / recursion, no new '
             'panic site, non-finite input gated"; not complexity, stack depth or arithmetic asserts.',
     'note': 'Trusted: rustc MIR; finiteness of std/slotmap/smallvec iterators; the LOOP / PANIC / FINITE tables in '
             'engine/rules/c19.py (each entry with a reason). Idiom classifiers: an unrecognised but correct new loop or '
